@@ -17,26 +17,27 @@ class Rejected(Exception):
     pass
 
 
-def _mk(mask, src, nkeys):
-    vals = {"a": f"a-from-{src}", "plan_name": f"name-from-{src}", "scan_id": {"persistent": 40, "open1": 500, "open2": 600, "call": 700}.get(src, 0), "b": f"b-from-{src}"}
+def _mk(mask, src, nkeys, a_none=False):
+    vals = {"a": None if a_none else f"a-from-{src}", "plan_name": f"name-from-{src}", "scan_id": {"persistent": 40, "open1": 500, "open2": 600, "call": 700}.get(src, 0), "b": f"b-from-{src}"}
     return {k: vals[k] for i, k in enumerate(KEYS[:nkeys]) if (mask >> i) & 1}
 
 
 def make(P):
     NK = P["nkeys"]
 
-    def h(pm: int, o1: int, o2: int, cm: int, norm: bool, val: int) -> str:
+    def h(pm: int, o1: int, o2: int, cm: int, norm: bool, val: int, nn: int) -> str:
         top = 2**NK - 1
         pmask, m1, cmask = fork_int(pm, 0, top), fork_int(o1, 0, top), fork_int(cm, 0, top)
         m2 = fork_int(o2, 0, top) if not P.get("small_m2") else (2 if fork_bool(o2 != 0) else 0)  # quick: run 2 either supplies plan_name or nothing
         only_shard(pmask + (top + 1) * m1, P)
         use_norm = fork_bool(norm)
+        none_at = fork_int(nn, 0, 2)  # 0: every value is a string; 1: the call-level 'a' is an explicit None; 2: run 1's open_run 'a' is an explicit None
         vmode = fork_int(val, 0, 2)  # 0 accept all, 1 reject run 2, 2 reject when 'a' comes from the call
         with notrace():
             persistent = _mk(pmask, "persistent", NK)
             persistent.pop("scan_id", None) if not (pmask >> 2) & 1 else None
-            opens = [_mk(m1, "open1", NK), _mk(m2, "open2", NK)]
-            callkw = _mk(cmask, "call", NK)
+            opens = [_mk(m1, "open1", NK, a_none=none_at == 2), _mk(m2, "open2", NK)]
+            callkw = _mk(cmask, "call", NK, a_none=none_at == 1)
             seen_by_validator = []
 
             def validator(md):
@@ -127,6 +128,6 @@ def _fns():
 register(Harness("c17_metadata", "C17", make, {"quick": dict(nkeys=3, small_m2=True, shards=32, budget_s=300, per_path_s=30), "thorough": dict(nkeys=4, small_m2=True, shards=64, budget_s=3000, per_path_s=30)},
                  goals=["merged", "rejected", "scan_id-overridden"], functions=_fns, mode="schedule",
                  symbolic="presence masks over the keys {a, plan_name, scan_id[, b]} for persistent md, the open_run metadata of run 1 and of run 2, and the RE(...) keyword metadata; "
-                 "normalizer on/off; validator in {accept, reject run 2, reject when 'a' comes from the call}",
-                 out_of_bound=OUT + "; custom scan_id sources; more than two runs per call; values are distinct constants per source (merging never inspects them)", stubs=STUBS,
+                 "normalizer on/off; validator in {accept, reject run 2, reject when 'a' comes from the call}; optionally the call-level or run 1's open_run value of 'a' is an explicit None",
+                 out_of_bound=OUT + "; custom scan_id sources; more than two runs per call; values are distinct constants per source or an explicit None", stubs=STUBS,
                  require_exhaustive=True))
